@@ -882,6 +882,7 @@ pub fn worker(ctx: &'static Ctx, i: usize, n: usize) {
     let single = std::env::var("VERIF_SINGLE_PASS").is_ok();
     for level in if single { vec![] } else { preliminary_log_levels(ctx.tier) } {
         set_logging_level(level);
+        set_source_env_vars(level == log::LevelFilter::Debug);
         if level == log::LevelFilter::Trace {
             crate::clock::set_global_now_ms(PASS1_CLOCK_MS);
         } else {
@@ -895,6 +896,7 @@ pub fn worker(ctx: &'static Ctx, i: usize, n: usize) {
         ctx.mark_pass_boundary(&level.to_string().to_lowercase());
     }
     set_logging(false);
+    set_source_env_vars(false);
     crate::clock::set_global_offset_ns(0);
     let mut st = Stats::new();
     let (ex, pts, rep) = run_roots(ctx, &sim, &mine, &mut st);
